@@ -327,6 +327,15 @@ class UnaryExpression(MathExpression):
 # ### Negation
 
 
+def _leads_with_literal_power(node: Optional[MathExpression]) -> bool:
+    """Whether the text of a node starts with a literal raised to a power"""
+    while isinstance(node, (MultiplyExpression, DivideExpression)):
+        node = node.left
+    return isinstance(node, PowerExpression) and isinstance(
+        node.left, ConstantExpression
+    )
+
+
 class NegateExpression(UnaryExpression):
     """Negate an expression, e.g. `4` becomes `-4`"""
 
@@ -342,12 +351,19 @@ class NegateExpression(UnaryExpression):
         return -value
 
     def __str__(self) -> str:
-        inner: Union[Optional[MathExpression], str] = self.get_child()
-        binary_types = (
-            AddExpression,
-            SubtractExpression,
-        )
-        if isinstance(inner, binary_types):
+        child = self.get_child()
+        inner = f"{child}"
+        group = isinstance(child, (AddExpression, SubtractExpression))
+        # "--x" is not valid input, and a minus directly before a literal makes a
+        # negative literal, so "-2^2" would read as (-2)^2
+        if inner.startswith("-") or _leads_with_literal_power(child):
+            group = True
+        # The parser reads "-a / b * c" as "-a / (b * c)"
+        if isinstance(child, DivideExpression) and isinstance(
+            self.parent, (MultiplyExpression, DivideExpression)
+        ):
+            group = group or self.parent.left is self
+        if group:
             inner = f"({inner})"
         return self.with_color("-{}".format(inner))
 
@@ -594,7 +610,12 @@ class MultiplyExpression(BinaryExpression):
                 right.left, VariableExpression
             )
             if one or two:
-                return self.with_color(f"{left}{right}")
+                out = f"{left}{right}"
+                # (4x)^2 is not 4x^2
+                parent = self.parent
+                if isinstance(parent, PowerExpression) and parent.left is self:
+                    out = f"({out})"
+                return self.with_color(out)
         return super().__str__()
 
     def to_math_ml_fragment(self) -> str:
@@ -659,7 +680,13 @@ class PowerExpression(BinaryExpression):
         return np.power(one, two)
 
     def __str__(self) -> str:
-        return "{}{}{}".format(self.left, self.with_color(self.name), self.right)
+        left, right = f"{self.left}", f"{self.right}"
+        # (-x)^2 is not -x^2, and (a^b)^c is not a^b^c
+        if isinstance(self.left, (NegateExpression, PowerExpression)):
+            left = f"({left})"
+        if isinstance(self.right, PowerExpression):
+            right = f"({right})"
+        return "{}{}{}".format(left, self.with_color(self.name), right)
 
 
 class ConstantExpression(MathExpression):
